@@ -1,5 +1,7 @@
 (* v0.1: a reference-encoded file decodes to the values stored in it - every frame (the count comes from the
-   payload size, the 16-bit field is ignored) or the requested frame window - from bytes and from a stream. *)
+   payload size, the 16-bit field is ignored) or the requested window, given by frame bounds, time bounds or one of
+   each - from bytes and from a stream; a start at or beyond the last frame and a frame and a time bound for the same
+   end are refused. *)
 From Coq Require Import ZArith NArith List Lia ZifyBool ZifyN ZifyNat Bool.
 Require Import ListN Result Bytes Utf8 Utf8S F32 Prog Codec ProgLemmas CodecRT PoseRead PoseReadLemmas StreamLemmas
   WindowLemmas StreamRead C04_Legacy C04_Spec C04_Div C04_Stream C04_Handoff C04_SpecRT.
@@ -88,6 +90,35 @@ Lemma RTq_run {A} (p : prog A) e a : RTq p e [] a -> forall pre,
   run_plain p {| pbuf := pre ++ e; poff := lenN pre |} = Ok (a, {| pbuf := pre ++ e; poff := lenN pre + lenN e |}).
 Proof. intros H pre. specialize (H pre). now rewrite app_nil_r in H. Qed.
 
+(* the same for a run that ends in a raise of the decoder's own (C04_Stream.fails_at) *)
+Definition FLq {A} (p : prog A) (e post : bytes) (er : err) : Prop :=
+  forall pre, fails_at p {| pbuf := pre ++ e ++ post; poff := lenN pre |} er.
+Lemma FLq_bind {A B} (p : prog A) (f : A -> prog B) e1 e2 post a er :
+  RTq p e1 (e2 ++ post) a -> FLq (f a) e2 post er -> FLq (pbind p f) (e1 ++ e2) post er.
+Proof.
+  intros H1 H2 pre. eapply fails_at_bind.
+  - rewrite <- app_assoc. apply (H1 pre).
+  - specialize (H2 (pre ++ e1)). rewrite <- !app_assoc in H2. rewrite lenN_app in H2. exact H2.
+Qed.
+Lemma FLq_bytesleft {A} (k : Z -> prog A) e post er :
+  FLq (k (Z.of_N (lenN e + lenN post))) e post er -> FLq (BytesLeft k) e post er.
+Proof.
+  intros H pre. cbn [fails_at pbuf poff]. rewrite !lenN_app.
+  replace (Z.of_N (lenN pre + (lenN e + lenN post)) - Z.of_N (lenN pre))%Z with (Z.of_N (lenN e + lenN post)) by lia.
+  apply H.
+Qed.
+Lemma FLq_fail {A} e post er : FLq (@Fail A er) e post er.
+Proof. intros pre. reflexivity. Qed.
+Lemma FLq_at {A} (p : prog A) e er : FLq p e [] er -> forall pre,
+  fails_at p {| pbuf := pre ++ e; poff := lenN pre |} er.
+Proof. intros H pre. specialize (H pre). now rewrite app_nil_r in H. Qed.
+(* read_v0_1_frames refuses a start at or beyond the frame count before it reads *)
+Lemma read_frames_beyond F cells s e : (0 < start0 s)%Z -> (F <= start0 s)%Z -> read_frames F cells s e = Fail Value.
+Proof.
+  unfold start0, read_frames. destruct s as [z|]; [|lia]. destruct (Z.ltb_spec 0 z) as [Hz|]; [|lia]. intros _ HF.
+  destruct (Z.leb_spec F z) as [_|]; [reflexivity|lia].
+Qed.
+
 (* ---------- the two tensor reads and the constructor ---------- *)
 Definition tail01 (fpsw P T : N) (D F : Z) (s e : option Z) : prog body :=
   dop dat <- read_frames F (Z.of_N (P * T) * D) s e;
@@ -119,6 +150,47 @@ Proof. reflexivity. Qed.
 Lemma flat_map_enc (ws : list N) : concat (map enc_u32 ws) = flat_map enc_u32 ws.
 Proof. symmetry. apply flat_map_concat_map. Qed.
 
+(* ---------- the window a set of read arguments denotes ---------- *)
+(* for a recording of F frames at frame rate fps (a float32 word): frame bounds as given, a time bound of t ms as
+   floor (start) / ceil (end) of t / 1000 * fps (WindowLemmas.resolve_start / resolve_end: the rule of the v0.2 reader);
+   a start below 0 is 0, an end beyond the recording is its end; a frame and a time bound for the same end: no window *)
+Definition window_of (fps : N) (F : Z) (a : rargs) : result (Z * Z) :=
+  if conflict (a_sf a) (a_st a) || conflict (a_ef a) (a_et a) then Err Value else
+  do s <- resolve_start fps (a_sf a) (a_st a);
+  do e <- resolve_end fps (a_ef a) (a_et a);
+  Ok (start0 s, end0 e F).
+Lemma window_of_inv fps F a s0 e0 : window_of fps F a = Ok (s0, e0) ->
+  conflict (a_sf a) (a_st a) = false /\ conflict (a_ef a) (a_et a) = false /\
+  exists s e, resolve_start fps (a_sf a) (a_st a) = Ok s /\ resolve_end fps (a_ef a) (a_et a) = Ok e /\
+              s0 = start0 s /\ e0 = end0 e F.
+Proof.
+  unfold window_of. destruct (conflict (a_sf a) (a_st a)); [discriminate|]. destruct (conflict (a_ef a) (a_et a)); [discriminate|].
+  cbn [orb]. destruct (resolve_start fps (a_sf a) (a_st a)) as [s|]; [|discriminate].
+  destruct (resolve_end fps (a_ef a) (a_et a)) as [e|]; [|discriminate]. cbn [rbind]. intros H. injection H as <- <-.
+  split; [reflexivity|]. split; [reflexivity|]. exists s, e. repeat split.
+Qed.
+(* frame bounds only: the window is the clipped pair *)
+Lemma window_of_frames fps F a : a_st a = None -> a_et a = None -> window_of fps F a = Ok (start0 (a_sf a), end0 (a_ef a) F).
+Proof. intros Hs He. unfold window_of, conflict, resolve_start, resolve_end. rewrite Hs, He. destruct (a_sf a), (a_ef a); reflexivity. Qed.
+
+(* the decoder after its two argument checks *)
+Definition body01 (h : header) (sf st ef et : option Z) : prog body :=
+  dop ff <- rd_u16x2;
+  dop P <- rd_u16;
+  let T := total_points h in
+  dop D <- plift (num_dims h);
+  BytesLeft (fun left =>
+  dop F <- plift (py_int_truediv left (Z.of_N P * Z.of_N T * (D + 1) * 4));
+  let fps := f32_of_u16 (fst ff) in
+  dop s <- plift (resolve_start fps sf st);
+  dop e <- plift (resolve_end fps ef et);
+  dop dat <- read_frames F (Z.of_N (P * T) * D) s e;
+  dop cnf <- read_frames F (Z.of_N (P * T)) s e;
+  plift (mk_body fps (Z.to_N (fst dat)) P T D (snd dat) (snd cnf))).
+Lemma read_v0_1_shape h sf st ef et :
+  read_v0_1 h sf st ef et = if conflict sf st || conflict ef et then Fail Value else body01 h sf st ef et.
+Proof. destruct sf, st, ef, et; reflexivity. Qed.
+
 (* ---------- the body ---------- *)
 Definition v01_window_body (c : content01) (s0 e0 : Z) : body := p_body (v01_view c (Z.to_N s0) (Z.to_N e0)).
 
@@ -132,12 +204,14 @@ Proof.
   split; [exact Hne|]. rewrite (num_dims_spec _ Hne). unfold spec_dims. split; [f_equal; lia|lia].
 Qed.
 
-Theorem v01_body_rt c sf ef : wf01 c ->
+Theorem v01_body_rt c sf st ef et s e : wf01 c ->
   let F := Z.of_N (lenN (k1_data c)) in
-  (start0 sf = 0 \/ start0 sf < F)%Z -> (start0 sf <= end0 ef F)%Z ->
-  RTq (read_v0_1 (k1_header c) sf ef) (spec_body01 c) [] (v01_window_body c (start0 sf) (end0 ef F)).
+  conflict sf st = false -> conflict ef et = false ->
+  resolve_start (fps_value (k1_fps c)) sf st = Ok s -> resolve_end (fps_value (k1_fps c)) ef et = Ok e ->
+  (start0 s = 0 \/ start0 s < F)%Z -> (start0 s <= end0 e F)%Z ->
+  RTq (read_v0_1 (k1_header c) sf st ef et) (spec_body01 c) [] (v01_window_body c (start0 s) (end0 e F)).
 Proof.
-  intros Hwf F Hv1 Hv2.
+  intros Hwf F Hc1 Hc2 Hrs Hre Hv1 Hv2.
   destruct (v01_counts c Hwf) as [Hne [Hnd HD1]].
   destruct Hwf as [Hh [Hver [Hfps [Hff [HP [HP1 [HT1 [HL [Hlen [HF53 [Hdat Hcnf]]]]]]]]]]].
   set (h := k1_header c) in *. set (P := k1_people c) in *. set (T := spec_points h) in *. set (D := spec_dims h) in *.
@@ -146,7 +220,7 @@ Proof.
   assert (HlenN : lenN (k1_conf c) = lenN (k1_data c)) by (unfold lenN; now rewrite Hlen).
   assert (Hld : lenN (concat (k1_data c)) = lenN (k1_data c) * (P * T * D)) by (now apply lenN_concat_uniform).
   assert (Hlc : lenN (concat (k1_conf c)) = lenN (k1_data c) * (P * T)) by (rewrite <- HlenN; now apply lenN_concat_uniform).
-  unfold spec_body01, read_v0_1. fold h P T.
+  rewrite read_v0_1_shape, Hc1, Hc2. cbn [orb]. unfold spec_body01, body01. fold h P T.
   replace (enc_u16 (k1_fps c) ++ enc_u16 (k1_frames_field c) ++ enc_u16 P ++
            concat (map enc_u32 (concat (k1_data c))) ++ concat (map enc_u32 (concat (k1_conf c))))
     with ((enc_u16 (k1_fps c) ++ enc_u16 (k1_frames_field c)) ++ enc_u16 P ++
@@ -160,16 +234,18 @@ Proof.
   assert (Hpay : Z.of_N (lenN payload + lenN (@nil N)) = (F * (Z.of_N P * Z.of_N T * (Z.of_N D + 1) * 4))%Z).
   { unfold payload. rewrite lenN_app, !lenN_flat_enc_u32, Hld, Hlc. unfold F, lenN at 3. cbn [length]. nia. }
   rewrite Hpay.
-  rewrite py_int_truediv_exact by (unfold F; nia). cbn [plift pbind].
+  rewrite py_int_truediv_exact by (unfold F; nia). cbn [plift pbind fst].
+  change (f32_of_u16 (k1_fps c)) with (fps_value (k1_fps c)). rewrite Hrs, Hre. cbn [plift pbind].
+  change (fps_value (k1_fps c)) with (f32_of_u16 (k1_fps c)).
   apply RTp_RTq.
-  pose proof (tail01_rt (f32_of_u16 (k1_fps c)) P T (Z.of_N D) F (concat (k1_data c)) (concat (k1_conf c)) sf ef) as HT.
-  unfold tail01 in HT. cbn [fst].
-  replace (v01_window_body c (start0 sf) (end0 ef F)) with
+  pose proof (tail01_rt (f32_of_u16 (k1_fps c)) P T (Z.of_N D) F (concat (k1_data c)) (concat (k1_conf c)) s e) as HT.
+  unfold tail01 in HT.
+  replace (v01_window_body c (start0 s) (end0 e F)) with
     {| b_fps := f32_of_u16 (k1_fps c);
-       b_shape := [Z.to_N (end0 ef F - start0 sf); P; T; Z.to_N (Z.of_N D)];
-       b_data := window_words (concat (k1_data c)) (start0 sf) (end0 ef F) (Z.of_N (P * T) * Z.of_N D);
-       b_conf := window_words (concat (k1_conf c)) (start0 sf) (end0 ef F) (Z.of_N (P * T));
-       b_mask := map is_zero32 (window_words (concat (k1_conf c)) (start0 sf) (end0 ef F) (Z.of_N (P * T))) |}.
+       b_shape := [Z.to_N (end0 e F - start0 s); P; T; Z.to_N (Z.of_N D)];
+       b_data := window_words (concat (k1_data c)) (start0 s) (end0 e F) (Z.of_N (P * T) * Z.of_N D);
+       b_conf := window_words (concat (k1_conf c)) (start0 s) (end0 e F) (Z.of_N (P * T));
+       b_mask := map is_zero32 (window_words (concat (k1_conf c)) (start0 s) (end0 e F) (Z.of_N (P * T))) |}.
   - apply HT.
     + apply Forall_concat. exact Hdw.
     + apply Forall_concat. exact Hcw.
@@ -180,9 +256,9 @@ Proof.
     + exact Hv1.
     + exact Hv2.
   - (* the window of the flat arrays is the concatenation of the window's frames *)
-    assert (He0 : (end0 ef F <= F)%Z) by (unfold end0; destruct ef; lia).
-    assert (Hs0 : (0 <= start0 sf)%Z) by (unfold start0; destruct sf as [z|]; [destruct (0 <? z)%Z eqn:E|]; lia).
-    set (s0 := start0 sf) in *. set (e0 := end0 ef F) in *.
+    assert (He0 : (end0 e F <= F)%Z) by (unfold end0; destruct e; lia).
+    assert (Hs0 : (0 <= start0 s)%Z) by (unfold start0; destruct s as [z|]; [destruct (0 <? z)%Z eqn:E|]; lia).
+    set (s0 := start0 s) in *. set (e0 := end0 e F) in *.
     unfold v01_window_body, v01_view. cbn [p_body]. fold h P T D.
     assert (Ew : forall (fr : list (list N)) cells, Forall (fun x => lenN x = cells) fr ->
               window_words (concat fr) s0 e0 (Z.of_N cells) = concat (takeN (Z.to_N e0 - Z.to_N s0) (dropN (Z.to_N s0) fr))).
@@ -196,6 +272,41 @@ Proof.
     f_equal. f_equal; [lia|]. f_equal. f_equal. f_equal. lia.
 Qed.
 
+(* a start at or beyond the last frame: ValueError (raised by read_v0_1_frames before the first tensor is read) *)
+Theorem v01_body_beyond c sf st ef et s e : wf01 c ->
+  let F := Z.of_N (lenN (k1_data c)) in
+  conflict sf st = false -> conflict ef et = false ->
+  resolve_start (fps_value (k1_fps c)) sf st = Ok s -> resolve_end (fps_value (k1_fps c)) ef et = Ok e ->
+  (0 < start0 s)%Z -> (F <= start0 s)%Z ->
+  FLq (read_v0_1 (k1_header c) sf st ef et) (spec_body01 c) [] Value.
+Proof.
+  intros Hwf F Hc1 Hc2 Hrs Hre Hv1 Hv2.
+  destruct (v01_counts c Hwf) as [Hne [Hnd HD1]].
+  destruct Hwf as [Hh [Hver [Hfps [Hff [HP [HP1 [HT1 [HL [Hlen [HF53 [Hdat Hcnf]]]]]]]]]]].
+  set (h := k1_header c) in *. set (P := k1_people c) in *. set (T := spec_points h) in *. set (D := spec_dims h) in *.
+  pose proof (Forall_and_l _ _ _ Hdat) as Hdl. pose proof (Forall_and_l _ _ _ Hcnf) as Hcl.
+  assert (HlenN : lenN (k1_conf c) = lenN (k1_data c)) by (unfold lenN; now rewrite Hlen).
+  assert (Hld : lenN (concat (k1_data c)) = lenN (k1_data c) * (P * T * D)) by (now apply lenN_concat_uniform).
+  assert (Hlc : lenN (concat (k1_conf c)) = lenN (k1_data c) * (P * T)) by (rewrite <- HlenN; now apply lenN_concat_uniform).
+  rewrite read_v0_1_shape, Hc1, Hc2. cbn [orb]. unfold spec_body01, body01. fold h P T.
+  replace (enc_u16 (k1_fps c) ++ enc_u16 (k1_frames_field c) ++ enc_u16 P ++
+           concat (map enc_u32 (concat (k1_data c))) ++ concat (map enc_u32 (concat (k1_conf c))))
+    with ((enc_u16 (k1_fps c) ++ enc_u16 (k1_frames_field c)) ++ enc_u16 P ++
+          (flat_map enc_u32 (concat (k1_data c)) ++ flat_map enc_u32 (concat (k1_conf c))))
+    by (rewrite !flat_map_enc, <- !app_assoc; reflexivity).
+  apply FLq_bind with (a := (k1_fps c, k1_frames_field c)); [apply RTp_RTq; now apply u16x2_rt|].
+  apply FLq_bind with (a := P); [apply RTp_RTq; now apply rd_u16_rt|].
+  change (total_points h) with T. rewrite Hnd. cbn [plift pbind].
+  apply FLq_bytesleft.
+  set (payload := flat_map enc_u32 (concat (k1_data c)) ++ flat_map enc_u32 (concat (k1_conf c))).
+  assert (Hpay : Z.of_N (lenN payload + lenN (@nil N)) = (F * (Z.of_N P * Z.of_N T * (Z.of_N D + 1) * 4))%Z).
+  { unfold payload. rewrite lenN_app, !lenN_flat_enc_u32, Hld, Hlc. unfold F, lenN at 3. cbn [length]. nia. }
+  rewrite Hpay.
+  rewrite py_int_truediv_exact by (unfold F; nia). cbn [plift pbind fst].
+  change (f32_of_u16 (k1_fps c)) with (fps_value (k1_fps c)). rewrite Hrs, Hre. cbn [plift pbind].
+  rewrite read_frames_beyond by assumption. cbn [pbind]. apply FLq_fail.
+Qed.
+
 (* ---------- Pose.read ---------- *)
 Lemma spec_header_parsed h body : wf_header h ->
   run_plain rd_header {| pbuf := spec_header h ++ body; poff := 0 |} =
@@ -204,41 +315,44 @@ Proof. intros Hh. pose proof (spec_header_rt h Hh [] body) as H. cbn [app] in H.
 
 Lemma noAdv_plift {A} (r : result A) : noAdv (plift r).
 Proof. destruct r; exact I. Qed.
-Lemma noAdv_read_v0_1 h sf ef : noAdv (read_v0_1 h sf ef).
+Lemma noAdv_read_v0_1 h sf st ef et : noAdv (read_v0_1 h sf st ef et).
 Proof.
-  unfold read_v0_1.
+  rewrite read_v0_1_shape. destruct (conflict sf st || conflict ef et); [exact I|]. unfold body01.
   apply noAdv_bind; [cbn; auto|]. intros ff.
   apply noAdv_bind; [cbn; auto|]. intros P.
   apply noAdv_bind; [apply noAdv_plift|]. intros D.
   cbn [noAdv]. intros z.
   apply noAdv_bind; [apply noAdv_plift|]. intros F.
+  apply noAdv_bind; [apply noAdv_plift|]. intros s.
+  apply noAdv_bind; [apply noAdv_plift|]. intros e.
   apply noAdv_bind; [apply v2prog_noAdv, v2prog_read_frames|]. intros dat.
   apply noAdv_bind; [apply v2prog_noAdv, v2prog_read_frames|]. intros cnf.
   apply noAdv_plift.
 Qed.
 
 Definition frames01 (c : content01) : Z := Z.of_N (lenN (k1_data c)).
-Definition valid_window01 (c : content01) (a : rargs) : Prop :=
-  (start0 (a_sf a) = 0 \/ start0 (a_sf a) < frames01 c)%Z /\ (start0 (a_sf a) <= end0 (a_ef a) (frames01 c))%Z.
-Definition v01_expected (c : content01) (a : rargs) : pose :=
-  v01_view c (Z.to_N (start0 (a_sf a))) (Z.to_N (end0 (a_ef a) (frames01 c))).
+(* the window the arguments denote for this recording, and what makes it one the decoder accepts: the start is the first
+   frame or lies inside the recording, and the (clipped) end is not before it *)
+Definition window01 (c : content01) (a : rargs) : result (Z * Z) := window_of (fps_value (k1_fps c)) (frames01 c) a.
+Definition valid_window (F : Z) (s0 e0 : Z) : Prop := (s0 = 0 \/ s0 < F)%Z /\ (s0 <= e0)%Z.
 
-Theorem v01_read_bytes c m a : wf01 c -> MemoOK m -> valid_window01 c a ->
-  fst (read_bytes c04_legacy m (spec01 c) a) = Ok (v01_expected c a).
+Theorem v01_read_bytes c m a s0 e0 : wf01 c -> MemoOK m -> window01 c a = Ok (s0, e0) -> valid_window (frames01 c) s0 e0 ->
+  fst (read_bytes c04_legacy m (spec01 c) a) = Ok (v01_view c (Z.to_N s0) (Z.to_N e0)).
 Proof.
-  intros Hwf Hm [Hv1 Hv2].
+  intros Hwf Hm Hw [Hv1 Hv2].
+  destruct (window_of_inv _ _ _ _ _ Hw) as [Hc1 [Hc2 [s [e [Hrs [Hre [-> ->]]]]]]].
   pose proof Hwf as [Hh [Hver _]].
   unfold spec01.
   rewrite (bytes_header c04_legacy m _ a _ _ Hm (spec_header_parsed _ (spec_body01 c) Hh)).
   unfold read_body, read_body_with. rewrite Hver. cbn [c04_legacy].
-  rewrite (RTq_run _ _ _ (v01_body_rt c (a_sf a) (a_ef a) Hwf Hv1 Hv2) (spec_header (k1_header c))).
+  rewrite (RTq_run _ _ _ (v01_body_rt c _ _ _ _ s e Hwf Hc1 Hc2 Hrs Hre Hv1 Hv2) (spec_header (k1_header c))).
   reflexivity.
 Qed.
 
-Theorem v01_read_stream c m a : wf01 c -> MemoOK m -> valid_window01 c a ->
-  fst (fst (read_stream4 c04_legacy m (spec01 c) a)) = Ok (v01_expected c a).
+Theorem v01_read_stream c m a s0 e0 : wf01 c -> MemoOK m -> window01 c a = Ok (s0, e0) -> valid_window (frames01 c) s0 e0 ->
+  fst (fst (read_stream4 c04_legacy m (spec01 c) a)) = Ok (v01_view c (Z.to_N s0) (Z.to_N e0)).
 Proof.
-  intros Hwf Hm Hv.
+  intros Hwf Hm Hw Hv.
   destruct (any_arg a) eqn:Ha.
   - pose proof Hwf as [Hh [Hver _]].
     apply (stream4_of_bytes_noAdv c04_legacy m (spec01 c) a (k1_header c) (lenN (spec_header (k1_header c)))); try assumption.
@@ -248,18 +362,86 @@ Proof.
   - rewrite read_stream4_noargs by exact Ha. now apply v01_read_bytes.
 Qed.
 
-(* the whole file: no frame bound given (time bounds are swallowed by **unused_kwargs and change nothing) *)
+(* frame bounds only (the theorem as it stood before the decoder took time bounds) *)
+Definition v01_expected (c : content01) (a : rargs) : pose :=
+  v01_view c (Z.to_N (start0 (a_sf a))) (Z.to_N (end0 (a_ef a) (frames01 c))).
+Corollary v01_read_frames c m a : wf01 c -> MemoOK m -> a_st a = None -> a_et a = None ->
+  valid_window (frames01 c) (start0 (a_sf a)) (end0 (a_ef a) (frames01 c)) ->
+  fst (read_bytes c04_legacy m (spec01 c) a) = Ok (v01_expected c a) /\
+  fst (fst (read_stream4 c04_legacy m (spec01 c) a)) = Ok (v01_expected c a).
+Proof.
+  intros Hwf Hm Hs He Hv. pose proof (window_of_frames (fps_value (k1_fps c)) (frames01 c) a Hs He) as Hw.
+  split; [now apply v01_read_bytes|now apply v01_read_stream].
+Qed.
+
+(* the whole file: no bound given *)
 Lemma takeN_all_frames {X} (l : list X) : takeN (lenN l - 0) (dropN 0 l) = l.
 Proof. rewrite dropN_0. apply takeN_all. lia. Qed.
 Definition v01_full (c : content01) : pose := v01_view c 0 (lenN (k1_data c)).
-Corollary v01_read_full c m a : wf01 c -> MemoOK m -> a_sf a = None -> a_ef a = None ->
+Corollary v01_read_full c m a : wf01 c -> MemoOK m -> any_arg a = false ->
   fst (read_bytes c04_legacy m (spec01 c) a) = Ok (v01_full c) /\
   fst (fst (read_stream4 c04_legacy m (spec01 c) a)) = Ok (v01_full c).
 Proof.
-  intros Hwf Hm Hs He.
-  assert (Hv : valid_window01 c a).
-  { unfold valid_window01, frames01. rewrite Hs, He. cbn [start0 end0]. lia. }
+  intros Hwf Hm Ha.
+  assert (E : a_sf a = None /\ a_st a = None /\ a_ef a = None /\ a_et a = None).
+  { unfold any_arg in Ha. destruct (a_sf a), (a_st a), (a_ef a), (a_et a); try discriminate. repeat split. }
+  destruct E as [Hsf [Hst [Hef Het]]].
+  assert (Hv : valid_window (frames01 c) (start0 (a_sf a)) (end0 (a_ef a) (frames01 c))).
+  { unfold valid_window, frames01. rewrite Hsf, Hef. cbn [start0 end0]. lia. }
   assert (E : v01_expected c a = v01_full c).
-  { unfold v01_expected, v01_full, frames01. rewrite Hs, He. cbn [start0 end0]. f_equal. lia. }
-  rewrite <- E. split; [now apply v01_read_bytes|now apply v01_read_stream].
+  { unfold v01_expected, v01_full, frames01. rewrite Hsf, Hef. cbn [start0 end0]. f_equal. lia. }
+  rewrite <- E. now apply v01_read_frames.
+Qed.
+
+(* ---------- refused arguments ---------- *)
+(* a frame and a time bound for the same end: ValueError before the body is touched *)
+Theorem v01_conflict_bytes c m a : wf01 c -> MemoOK m ->
+  conflict (a_sf a) (a_st a) || conflict (a_ef a) (a_et a) = true ->
+  fst (read_bytes c04_legacy m (spec01 c) a) = Err Value.
+Proof.
+  intros Hwf Hm Hc. pose proof Hwf as [Hh [Hver _]]. unfold spec01.
+  rewrite (bytes_header c04_legacy m _ a _ _ Hm (spec_header_parsed _ (spec_body01 c) Hh)).
+  unfold read_body, read_body_with. rewrite Hver. cbn [c04_legacy]. rewrite read_v0_1_shape, Hc. reflexivity.
+Qed.
+Theorem v01_conflict_stream c m a : wf01 c -> MemoOK m ->
+  conflict (a_sf a) (a_st a) || conflict (a_ef a) (a_et a) = true ->
+  fst (fst (read_stream4 c04_legacy m (spec01 c) a)) = Err Value.
+Proof.
+  intros Hwf Hm Hc. destruct (any_arg a) eqn:Ha.
+  - pose proof Hwf as [Hh [Hver _]].
+    apply (stream4_fail_noAdv c04_legacy m (spec01 c) a (k1_header c) (lenN (spec_header (k1_header c)))); try assumption.
+    + apply spec_header_parsed. exact Hh.
+    + unfold read_body, read_body_with. rewrite Hver. apply noAdv_read_v0_1.
+    + unfold read_body, read_body_with. rewrite Hver. cbn [c04_legacy]. rewrite read_v0_1_shape, Hc. reflexivity.
+  - rewrite read_stream4_noargs by exact Ha. now apply v01_conflict_bytes.
+Qed.
+(* a start at or beyond the last frame, given as a frame or as a time: ValueError *)
+Lemma v01_beyond_fails c a s0 e0 : wf01 c -> window01 c a = Ok (s0, e0) -> (0 < s0)%Z -> (frames01 c <= s0)%Z ->
+  fails_at (read_body c04_legacy (k1_header c) a)
+           {| pbuf := spec01 c; poff := lenN (spec_header (k1_header c)) |} Value.
+Proof.
+  intros Hwf Hw H0 HF.
+  destruct (window_of_inv _ _ _ _ _ Hw) as [Hc1 [Hc2 [s [e [Hrs [Hre [-> ->]]]]]]].
+  pose proof Hwf as [Hh [Hver _]].
+  unfold read_body, read_body_with. rewrite Hver. cbn [c04_legacy]. unfold spec01.
+  exact (FLq_at _ _ _ (v01_body_beyond c _ _ _ _ s e Hwf Hc1 Hc2 Hrs Hre H0 HF) (spec_header (k1_header c))).
+Qed.
+Theorem v01_beyond_bytes c m a s0 e0 : wf01 c -> MemoOK m -> window01 c a = Ok (s0, e0) -> (0 < s0)%Z -> (frames01 c <= s0)%Z ->
+  fst (read_bytes c04_legacy m (spec01 c) a) = Err Value.
+Proof.
+  intros Hwf Hm Hw H0 HF. pose proof Hwf as [Hh _].
+  apply (bytes_fail c04_legacy m (spec01 c) a (k1_header c) (lenN (spec_header (k1_header c)))); [exact Hm| |].
+  - apply spec_header_parsed. exact Hh.
+  - now apply (v01_beyond_fails c a s0 e0).
+Qed.
+Theorem v01_beyond_stream c m a s0 e0 : wf01 c -> MemoOK m -> window01 c a = Ok (s0, e0) -> (0 < s0)%Z -> (frames01 c <= s0)%Z ->
+  fst (fst (read_stream4 c04_legacy m (spec01 c) a)) = Err Value.
+Proof.
+  intros Hwf Hm Hw H0 HF. destruct (any_arg a) eqn:Ha.
+  - pose proof Hwf as [Hh [Hver _]].
+    apply (stream4_fail_noAdv c04_legacy m (spec01 c) a (k1_header c) (lenN (spec_header (k1_header c)))); try assumption.
+    + apply spec_header_parsed. exact Hh.
+    + unfold read_body, read_body_with. rewrite Hver. apply noAdv_read_v0_1.
+    + now apply (v01_beyond_fails c a s0 e0).
+  - rewrite read_stream4_noargs by exact Ha. now apply (v01_beyond_bytes c m a s0 e0).
 Qed.
